@@ -58,6 +58,16 @@ Example io_refutation_world_is_history_independent_once_repaired :
   /\ snd (inproc_after repaired Wref [Load KMat 2%nat] (Load KMat 3%nat) fsref) = (139, [Bin]).
 Proof. vm_compute. split; reflexivity. Qed.
 
+(* breadth-first search over histories (Maths/IOSearch.v): shortest distinguishing history, computed inside Coq *)
+From OM Require Import Maths.IOSearch.
+Theorem io_shortest_distinguishing_history_pinned :
+  bfs pinned Wref fsref alpha_ref 4 = Some ([Load KMat 0%nat], Load KVec 1%nat)
+  /\ bfs {| consume_before_open := true; tag_at_gcount := false |} Wref fsref alpha_ref 4 = Some ([Load KMat 2%nat], Load KMat 3%nat)
+  /\ bfs repaired Wref fsref alpha_ref 3 = None
+  /\ forall c W fs o, distinguishes c W fs [] o = false.
+Proof. exact (conj bfs_pinned (conj bfs_open_fix_only (conj bfs_repaired no_witness_of_length_0))). Qed.
+Print Assumptions io_shortest_distinguishing_history_pinned.
+
 (* ======================= object state machines (Geom/GeomState.v, SensorsState.v, MeshState.v) ======================= *)
 From OM Require Import Geom.GeomState Geom.SensorsState Geom.MeshState Geom.StateProofs.
 
